@@ -17,6 +17,8 @@ Correspondence: the REAL `psutil.net_io_counters / psutil.disk_io_counters` (fro
 on generated device tables rendered by the *Lean* kernel-side renderers.
 """
 import ast
+import errno
+import hashlib
 import os
 import shutil
 import tempfile
@@ -90,7 +92,21 @@ def _net_facts(tree):
     skip = 0 if it.slice.lower is None else L.const(it.slice.lower)
     rfind = unpack = output = None
     strip = "?"
+    min_colon = None
     for st in loop.body:
+        if isinstance(st, ast.Assert):
+            t = st.test
+            if not (isinstance(t, ast.Compare) and len(t.ops) == 1 and L.dotted(t.left) == "colon"
+                    and isinstance(L.const(t.comparators[0]), int) and L.const(t.comparators[0]) >= 0):
+                raise NotRecognised("net_io_counters: assert %s" % L.unparse(t))
+            k = L.const(t.comparators[0])
+            if isinstance(t.ops[0], ast.Gt):
+                min_colon = k + 1
+            elif isinstance(t.ops[0], ast.GtE):
+                min_colon = k
+            else:
+                raise NotRecognised("net_io_counters: assert %s" % L.unparse(t))
+            continue
         if isinstance(st, ast.Assign) and len(st.targets) == 1:
             tgt, val = st.targets[0], st.value
             if L.dotted(tgt) == "colon" and isinstance(val, ast.Call) and isinstance(val.func, ast.Attribute) \
@@ -113,7 +129,9 @@ def _net_facts(tree):
                 output = _names(val)
     if rfind is None or unpack is None or output is None or strip == "?":
         raise NotRecognised("net_io_counters: colon/name/unpack/retdict statements not all recognised")
-    return {"skip": skip, "rfind": rfind, "unpack": unpack, "output": output, "strip": strip}
+    if min_colon is None:
+        raise NotRecognised("net_io_counters: `assert colon > k` not found")
+    return {"skip": skip, "rfind": rfind, "unpack": unpack, "output": output, "strip": strip, "min_colon": min_colon}
 
 
 def _guard(test):
@@ -297,6 +315,21 @@ def _front_facts(tree, fname, per):
     if empty is None:
         raise NotRecognised("%s: `return {} if %s else None` not found" % (fname, per))
     return empty
+
+
+def _front_default(tree, fname, per):
+    """the default of the `perdisk` / `pernic` parameter, as written"""
+    fn = L.find_def(tree, fname)
+    a = fn.args
+    if a.vararg or a.kwarg or a.kwonlyargs or a.posonlyargs:
+        raise NotRecognised("%s: signature shape" % fname)
+    names = [x.arg for x in a.args]
+    if per not in names:
+        raise NotRecognised("%s: no parameter %s" % (fname, per))
+    i = names.index(per) - (len(names) - len(a.defaults))
+    if i < 0:
+        raise NotRecognised("%s: %s has no default" % (fname, per))
+    return L.unparse(a.defaults[i])
 
 
 def _front_total(tree, fname, per):
@@ -551,6 +584,12 @@ def facts(snap, F):
               "names in the tuple stored in retdict[name], in order")
     F.try_add("netNameStrip", "Option (List Nat)", lambda: L.lean_opt(net()["strip"], lambda cs: L.lean_list(cs, L.lean_nat)),
               "`name = line[:colon].strip(<chars>)`: none = every whitespace character of str.strip(), some cs = only these")
+    F.try_add("netMinColon", "Nat", lambda: L.lean_nat(net()["min_colon"]),
+              "`assert colon > k` (k + 1) / `assert colon >= k` (k): the smallest index of the colon that is accepted")
+    F.try_add("frontPerDefault", "List String",
+              lambda: _strs([_front_default(init, "disk_io_counters", "perdisk"), _front_default(init, "net_io_counters", "pernic")]),
+              "defaults of `perdisk` (psutil.disk_io_counters) and `pernic` (psutil.net_io_counters) as written: a call "
+              "without the argument asks for the system-wide form")
     F.try_add("textUniversalNewlines", "Bool", lambda: L.lean_bool(_open_text_newline(common)),
               "_common.open_text reads with universal newlines (true: '\\r', '\\r\\n' become '\\n') or with newline='\\n' (false)")
     F.try_add("snetioFields", "List String", lambda: _strs(runtime()["snetio"]), "_common.snetio._fields")
@@ -673,6 +712,9 @@ class Impl:
         self.real_listdir = os.listdir
         self.real_walk = os.walk
         self.next_st = None
+        self.next_errno = None
+        self.cur_order = None          # seed of the listing order the next call sees (None = the file system's own)
+        self.order_log = 0
         self.access_log = 0
         self.sysfs_log = 0
         real_access, real_exists, real_listdir, real_walk = os.access, os.path.exists, os.listdir, os.walk
@@ -698,19 +740,36 @@ class Impl:
         def listdir(path="."):
             if is_sys(path):
                 self.sysfs_log += 1
-                return real_listdir(self.cur_sysroot + path)
+                r = real_listdir(self.cur_sysroot + path)
+                if self.cur_order is not None:
+                    self.order_log += 1
+                    r.sort(key=lambda n: order_key(self.cur_order, n))
+                return r
             return real_listdir(path)
+
+        def ordered_walk(it, seed):
+            # os.walk(topdown=True) lets the caller re-order `dirs` in place: exactly what another
+            # listing order of the same directory would produce
+            for root, dirs, files in it:
+                dirs.sort(key=lambda n: order_key(seed, n))
+                files.sort(key=lambda n: order_key(seed, n))
+                yield root, dirs, files
 
         def walk(top, *a, **kw):
             if is_sys(top):
                 self.sysfs_log += 1
-                return real_walk(self.cur_sysroot + top, *a, **kw)
+                it = real_walk(self.cur_sysroot + top, *a, **kw)
+                if self.cur_order is not None and kw.get("topdown", True) and not a:
+                    return ordered_walk(it, self.cur_order)
+                return it
             return real_walk(top, *a, **kw)
         os.path.exists = exists
         os.listdir = listdir
         os.walk = walk
 
         def statvfs(path):
+            if self.next_errno is not None and path == "/psv-c09-mount":
+                raise OSError(self.next_errno, os.strerror(self.next_errno), path)
             if self.next_st is not None and path == "/psv-c09-mount":
                 return os.statvfs_result(tuple(self.next_st))
             return self.real_statvfs(path)
@@ -742,20 +801,51 @@ class Impl:
         for sub in node["subs"]:
             self._build(p, sub)
 
-    def _readback(self, p):
-        """the directory as os.scandir lists it (= the order os.listdir / os.walk will see)"""
+    def _readback(self, p, order=None):
+        """the directory as os.scandir lists it (= the order os.listdir / os.walk will see), or in the listing
+        order `order` the redirected os.listdir / os.walk will present"""
         files, subs = [], []
         with os.scandir(p) as it:
             entries = list(it)
+        if order is not None:
+            entries.sort(key=lambda e: order_key(order, e.name))
         for e in entries:
             if e.is_dir(follow_symlinks=False):
-                subs.append(self._readback(e.path))
+                subs.append(self._readback(e.path, order))
             else:
                 with open(e.path, "rb") as f:
                     files.append([e.name.hex(), f.read().hex()])
         return {"name": os.path.basename(p).hex(), "files": files, "subs": subs}
 
-    def materialise(self, tree):
+    def kernel_layout(self, root):
+        """re-arrange <root>/sys/block the way the kernel presents it: every entry of /sys/block is a SYMLINK to the
+        device directory under /sys/devices/...; every device directory holds symlinks to directories (`subsystem`,
+        `bdi`) that os.walk lists but does not enter (followlinks=False) - here they lead to decoy directories with
+        well-formed `stat` files: entering them would report phantom devices"""
+        sysd = os.fsencode(os.path.join(root, "sys"))
+        blk = os.path.join(sysd, b"block")
+        devs = os.path.join(sysd, b"devices", b"virtual", b"block")
+        decoy = os.path.join(sysd, b"class", b"block")
+        os.makedirs(devs)
+        os.makedirs(os.path.join(decoy, b"phantom0"))
+        with open(os.path.join(decoy, b"phantom0", b"stat"), "wb") as f:
+            f.write(b"      77       77       77       77       77       77       77       77       77       77       77\n")
+        with open(os.path.join(decoy, b"stat"), "wb") as f:
+            f.write(b"      66       66       66       66       66       66       66       66       66       66       66\n")
+        n = 0
+        for name in os.listdir(blk):
+            os.rename(os.path.join(blk, name), os.path.join(devs, name))
+            os.symlink(os.path.join(b"..", b"devices", b"virtual", b"block", name), os.path.join(blk, name))
+            for d, subdirs, _ in os.walk(os.path.join(devs, name)):
+                if os.path.basename(d) in (b"queue", b"holders", b"slaves", b"power", b"mq", b"integrity", b"trace"):
+                    continue
+                for ln in (b"subsystem", b"bdi"):
+                    if ln not in subdirs and not os.path.lexists(os.path.join(d, ln)):
+                        os.symlink(decoy, os.path.join(d, ln))
+                        n += 1
+        return n
+
+    def materialise(self, tree, order=None):
         """tree (list of nodes, or None = /sys/block does not exist) → (root holding sys/block, the tree in listing order)"""
         self.nroots += 1
         root = os.path.join(self.sysparent, "w%d" % self.nroots)
@@ -766,9 +856,9 @@ class Impl:
         os.mkdir(blk)
         for node in tree:
             self._build(blk, node)
-        return root, self._readback(blk)["subs"]
+        return root, self._readback(blk, order)["subs"]
 
-    def disk_world(self, diskstats, tree, perdisk, nowrap=False, sysdir=None):
+    def disk_world(self, diskstats, tree, perdisk, nowrap=False, sysdir=None, order=None, kernel=False, default=False):
         """psutil.disk_io_counters in a world with/without {procfs}/diskstats and with/without /sys/block"""
         if diskstats is None:
             self.fp.remove("diskstats")
@@ -776,13 +866,18 @@ class Impl:
             self.fp.write("diskstats", diskstats)
         if sysdir is None or not os.path.isdir(sysdir):
             sysdir, _ = self.materialise(tree)
+        if kernel and tree is not None:
+            self.kernel_links = self.kernel_layout(sysdir)
         self.cur_sysroot = sysdir
+        self.cur_order = order
         try:
             if nowrap:
                 self.ps.disk_io_counters.cache_clear()
-            return self._call(self.ps.disk_io_counters, perdisk=perdisk, nowrap=nowrap)
+            kw = {"nowrap": nowrap} if default and not perdisk else {"perdisk": perdisk, "nowrap": nowrap}
+            return self._call(self.ps.disk_io_counters, **kw)
         finally:
             self.cur_sysroot = self.sysroot
+            self.cur_order = None
             shutil.rmtree(sysdir, ignore_errors=True)
 
     def ints(self, toks):
@@ -813,18 +908,21 @@ class Impl:
         except Exception as e:  # noqa: BLE001 - every exception is an observable
             return {"kind": "exc", "exc": type(e).__name__}
 
-    def net(self, file, pernic, nowrap=False):
+    def net(self, file, pernic, nowrap=False, default=False):
         self.fp.write("net/dev", file)
         if nowrap:
             self.ps.net_io_counters.cache_clear()
-        return self._call(self.ps.net_io_counters, pernic=pernic, nowrap=nowrap)
+        # `default`: the system-wide form is asked for by NOT passing pernic
+        kw = {"nowrap": nowrap} if default and not pernic else {"pernic": pernic, "nowrap": nowrap}
+        return self._call(self.ps.net_io_counters, **kw)
 
-    def disk(self, file, sysblock, perdisk, nowrap=False):
+    def disk(self, file, sysblock, perdisk, nowrap=False, default=False):
         self.fp.write("diskstats", file)
         self.set_sysblock(sysblock)
         if nowrap:
             self.ps.disk_io_counters.cache_clear()
-        return self._call(self.ps.disk_io_counters, perdisk=perdisk, nowrap=nowrap)
+        kw = {"nowrap": nowrap} if default and not perdisk else {"perdisk": perdisk, "nowrap": nowrap}
+        return self._call(self.ps.disk_io_counters, **kw)
 
     def storage(self, sysblock, names):
         self.set_sysblock(sysblock)
@@ -836,16 +934,25 @@ class Impl:
                 out.append(type(e).__name__)
         return out
 
-    def usage(self, st):
+    def usage(self, st, err=None):
         self.next_st = st
+        self.next_errno = err
         try:
             r = self.ps.disk_usage("/psv-c09-mount")
             return {"total": int(r.total), "used": int(r.used), "free": int(r.free), "percent": float(r.percent),
                     "fields": list(r._fields)}
+        except OSError as e:
+            return {"kind": "exc", "exc": "OSError", "errno": e.errno}
         except Exception as e:  # noqa: BLE001
             return {"kind": "exc", "exc": type(e).__name__}
         finally:
             self.next_st = None
+            self.next_errno = None
+
+
+def order_key(seed, name):
+    """the position of a directory entry in listing order number `seed` (any fixed pseudo-random permutation)"""
+    return hashlib.sha1(b"%d:" % seed + (name if isinstance(name, bytes) else os.fsencode(name))).digest()
 
 
 def canon_model(out):
@@ -1014,7 +1121,7 @@ def render_net_line(name, cols):
 def gen_netraw_case(rng):
     """malformed / corner-case /proc/net/dev contents (model-only comparison)"""
     fam = rng.choice(["nocolon", "short", "long", "nonnum", "blank", "emptyname", "crlf", "noheader", "oneheader",
-                      "empty", "dup", "nofinalnl", "tabs", "leadzero", "signed", "negative", "unispace"])
+                      "empty", "dup", "nofinalnl", "tabs", "leadzero", "signed", "negative", "unispace", "colonpos"])
     rows = [(rng.choice([b"lo", b"eth0", b"eth0:1", b"w"]), distinct_row(rng, 16, "small", k)) for k in range(rng.randrange(1, 4))]
     lines = [H1, H2] + [render_net_line(n, c) for n, c in rows]
     end = b"\n"
@@ -1047,6 +1154,9 @@ def gen_netraw_case(rng):
             lines.append(render_net_line(b"zz", distinct_row(rng, 16, "small", 5)))
     elif fam == "tabs":
         lines.append(b"\teth9:\t" + b"\t".join(b"%d" % i for i in range(1, 17)) + b"\t")
+    elif fam == "colonpos":
+        # the colon at index 0..3 of an unpadded line (`assert colon > 0`)
+        lines.append(rng.choice([b"", b"a", b"ab", b"abc"]) + b": " + b" ".join(b"%d" % i for i in range(1, 17)))
     elif fam == "leadzero":
         lines.append(b"eth9:" + b" ".join(b"00%d" % i for i in range(1, 17)))
     elif fam in ("signed", "negative"):
@@ -1175,7 +1285,14 @@ def gen_sysfs_case(rng):
         nparts_total += len(parts)
         disks.append({"major": major, "minor": minor, "name": hx(base), "s": row[:11], "ext": row[11:],
                       "others": gen_other_files(rng, major, minor), "attrs": gen_attr_dirs(rng), "parts": parts})
-    return {"op": "sysfs", "disks": disks, "procfs": procfs, "perdisk": rng.random() < 0.5}, \
+    op = {"op": "sysfs", "disks": disks, "procfs": procfs, "perdisk": rng.random() < 0.5}
+    # the order in which os.listdir / os.walk list the entries: the file system's own, or one of 2^30 others
+    if rng.random() < 0.6:
+        op["_order"] = rng.randrange(1 << 30)
+    # the kernel's layout: /sys/block/<dev> are symlinks, `subsystem`/`bdi` symlinks to directories below
+    if rng.random() < 0.35:
+        op["_kernel"] = True
+    return op, \
         {"n": ndisks + nparts_total, "style": style, "fields": 11 + extlen, "parts": nparts_total,
          "slash": any(b"/" in b for b in bases)}
 
@@ -1245,8 +1362,11 @@ def gen_sysfsraw_case(rng):
             disk_line(8, 1, b"sda1", distinct_row(rng, 11, "small", 2)) + b"\n"
     elif fam == "emptysys":
         tree = []
-    return {"op": "sysfsraw", "tree": tree, "diskstats": None if diskstats is None else diskstats.hex(),
-            "perdisk": rng.random() < 0.5}, {"fam": fam}
+    op = {"op": "sysfsraw", "tree": tree, "diskstats": None if diskstats is None else diskstats.hex(),
+          "perdisk": rng.random() < 0.5}
+    if rng.random() < 0.5 or fam == "dupname":
+        op["_order"] = rng.randrange(1 << 30)     # with duplicate base names the listing order decides who wins
+    return op, {"fam": fam}
 
 
 INT_ALPHABET = b"+-_019x \x1f"
@@ -1268,9 +1388,11 @@ def int_ops():
 
 
 def gen_usage_case(rng):
-    fam = rng.choice(["typical", "typical", "full", "emptyfs", "zero", "reserved", "weird", "huge", "tie"])
+    fam = rng.choice(["typical", "typical", "full", "emptyfs", "zero", "reserved", "weird", "huge", "huge", "tie", "oserror"])
     frsize = rng.choice([512, 1024, 4096, 4096, 65536, 1, 3])
-    bsize = rng.choice([4096, 8192, 131072, 7])
+    # f_bsize (preferred I/O size) is ALWAYS different from f_frsize (the unit of the block counts): NFS-like
+    # large values, smaller than the fragment, huge
+    bsize = rng.choice([4096, 8192, 131072, 1048576, 7, 512, 2**31, 2**40, 2**63])
     if bsize == frsize:
         bsize *= 2                      # distinct, so that f_bsize-for-f_frsize is visible
     blocks = rng.randrange(1, 10**rng.randrange(1, 12))
@@ -1296,6 +1418,12 @@ def gen_usage_case(rng):
         bfree = rng.randrange(0, blocks)
         bavail = rng.randrange(0, bfree + 1)
         frsize = rng.choice([4096, 2**20, 2**32])
+        bsize = rng.choice([512, 2**16, 2**33, 2**62, 2**64 - 1])
+        if bsize == frsize:
+            bsize += 1
+    elif fam == "oserror":
+        bfree = rng.randrange(0, blocks + 1)
+        bavail = rng.randrange(0, bfree + 1)
     else:                                # percent exactly at a rounding tie k.x5
         d = rng.choice([2000, 200, 400, 4000])
         k = rng.randrange(0, d) | 1
@@ -1306,7 +1434,10 @@ def gen_usage_case(rng):
     files = rng.randrange(1, 10**6)
     st = [bsize, frsize, blocks, bfree, bavail, files, files // 2 + 1, files // 3 + 2, rng.choice([0, 1, 4096, 1024]),
           rng.choice([255, 143, 1020])]
-    return {"op": "usage", "st": st}, {"fam": fam}
+    op = {"op": "usage", "st": st}
+    if fam == "oserror":
+        op["errno"] = rng.choice([errno.ENOENT, errno.EACCES, errno.EIO, errno.ENOTDIR, errno.ELOOP, errno.ENAMETOOLONG, errno.ENOSYS])
+    return op, {"fam": fam}
 
 
 # ------------------------------------------------------------------------------ correspondence
@@ -1346,8 +1477,16 @@ def features(op, meta):
             f.add("sysfs:disks+partitions")
         if meta.get("slash"):
             f.add("sysfs:slash-name")
+        f.add("sysfs:listing-order=" + ("permuted" if op.get("_order") is not None else "file system's own"))
+        if op.get("_kernel"):
+            f.add("sysfs:kernel-layout (symlinked /sys/block entries, subsystem/bdi symlinks not entered)")
     elif op["op"] == "usage":
         f.add("usage:" + meta["fam"])
+        f.add("usage:f_bsize %s f_frsize" % ("<" if op["st"][0] < op["st"][1] else ">" if op["st"][0] > op["st"][1] else "=="))
+    if op["op"] == "sysfsraw" and op.get("_order") is not None:
+        f.add("sysfsraw:listing-order=permuted")
+    if op.get("_default"):
+        f.add(op["op"] + ":system-wide form by default argument")
     return f
 
 
@@ -1380,29 +1519,31 @@ def run_ops(ctx, impl, ops):
         for o in chunk:
             # raw /sys/block trees are built first and handed to the model in the order the OS lists them
             if o["op"] == "sysfsraw" and not (o.get("_sysdir") and os.path.isdir(o["_sysdir"])):
-                o["_sysdir"], o["tree"] = impl.materialise(o["tree"])
+                o["_sysdir"], o["tree"] = impl.materialise(o["tree"], o.get("_order"))
         answers = drv.batch([{k: v for k, v in o.items() if not k.startswith("_")} for o in chunk])
+        # (keys starting with `_` steer the implementation side only: _nowrap, _default, _order, _kernel)
         for o, ans in zip(chunk, answers):
             if "bad" in ans:
                 raise InfraError("driver rejected %r: %s" % (o, ans))
             kind = o["op"]
             nowrap = bool(o.get("_nowrap"))
+            dflt = bool(o.get("_default"))
             if kind == "net":
-                im = impl.net(bytes.fromhex(ans["file"]), o["pernic"], nowrap)
+                im = impl.net(bytes.fromhex(ans["file"]), o["pernic"], nowrap, dflt)
             elif kind == "netraw":
-                im = impl.net(bytes.fromhex(o["file"]), o["pernic"], nowrap)
+                im = impl.net(bytes.fromhex(o["file"]), o["pernic"], nowrap, dflt)
             elif kind == "disk":
-                im = impl.disk(bytes.fromhex(ans["file"]), [bytes.fromhex(x) for x in ans["sysblock"]], o["perdisk"], nowrap)
+                im = impl.disk(bytes.fromhex(ans["file"]), [bytes.fromhex(x) for x in ans["sysblock"]], o["perdisk"], nowrap, dflt)
             elif kind == "diskraw":
-                im = impl.disk(bytes.fromhex(o["file"]), [bytes.fromhex(x) for x in o["sysblock"]], o["perdisk"], nowrap)
+                im = impl.disk(bytes.fromhex(o["file"]), [bytes.fromhex(x) for x in o["sysblock"]], o["perdisk"], nowrap, dflt)
             elif kind == "usage":
-                im = impl.usage(o["st"])
+                im = impl.usage(o["st"], o.get("errno"))
             elif kind == "sysfs":
                 im = impl.disk_world(None if ans["file"] is None else bytes.fromhex(ans["file"]), ans["tree"],
-                                     o["perdisk"], nowrap)
+                                     o["perdisk"], nowrap, order=o.get("_order"), kernel=bool(o.get("_kernel")), default=dflt)
             elif kind == "sysfsraw":
                 im = impl.disk_world(None if o["diskstats"] is None else bytes.fromhex(o["diskstats"]), o["tree"],
-                                     o["perdisk"], nowrap, sysdir=o.pop("_sysdir", None))
+                                     o["perdisk"], nowrap, sysdir=o.pop("_sysdir", None), order=o.get("_order"), default=dflt)
             elif kind == "int":
                 im = impl.ints([bytes.fromhex(x) for x in o["toks"]])
             elif kind == "storage":
@@ -1534,6 +1675,12 @@ def corpus_ops():
                 ops.append(({"op": "sysfs", "disks": sd(ext), "procfs": procfs, "perdisk": per},
                             {"n": 5, "fields": 11 + len(ext), "parts": 3, "slash": True}))
         ops.append(({"op": "sysfs", "disks": [], "procfs": False, "perdisk": per}, {"n": 0, "fields": 11, "parts": 0}))
+        # the same state in five other listing orders, and in the kernel's layout (symlinks)
+        for seed in (1, 2, 3, 4, 5):
+            ops.append(({"op": "sysfs", "disks": sd([101, 102, 103, 104]), "procfs": False, "perdisk": per, "_order": seed,
+                         "_kernel": seed % 2 == 0}, {"n": 5, "fields": 15, "parts": 3, "slash": True}))
+        ops.append(({"op": "sysfs", "disks": sd([]), "procfs": False, "perdisk": per, "_kernel": True},
+                    {"n": 5, "fields": 11, "parts": 3, "slash": True}))
         # neither source: NotImplementedError
         ops.append(({"op": "sysfsraw", "tree": None, "diskstats": None, "perdisk": per}, {"fam": "neither"}))
     return ops
@@ -1567,6 +1714,23 @@ def exhaustive_ops():
         for per in (True, False):
             tree = [node(b"sda", [(b"stat", stat_text(list(range(1, n + 1))))], [node(b"sda1", [(b"stat", stat_text(list(range(31, 48))))])])]
             ops.append(({"op": "sysfsraw", "tree": tree, "diskstats": None, "perdisk": per}, {"fam": "short" if n < 10 else "ten"}))
+    # the colon at every index 0..7 of a /proc/net/dev line (`assert colon > 0`: index 0 and no colon raise)
+    for k in range(0, 8):
+        line = b"abcdefg"[:k] + b":" + b"".join(b" %d" % (i + 1) for i in range(16))
+        for per in (True, False):
+            ops.append(({"op": "netraw", "file": (H1 + b"\n" + H2 + b"\n" + line + b"\n").hex(), "pernic": per},
+                        {"fam": "colonpos"}))
+    # the system-wide form by default argument, on a non-empty and an empty table of each kind
+    lo = render_net_line(b"lo", list(range(1, 17)))
+    e0 = render_net_line(b"eth0", list(range(21, 37)))
+    for body in (b"\n".join([H1, H2, lo, e0]) + b"\n", b"\n".join([H1, H2]) + b"\n"):
+        ops.append(({"op": "netraw", "file": body.hex(), "pernic": False, "_default": True}, {"fam": "default"}))
+    for body in (b"   8       0 sda 1 2 3 4 5 6 7 8 9 10 11\n   8       1 sda1 1 2 3 4 5 6 7 8 9 10 11\n   8      16 sdb 1 2 3 4 5 6 7 8 9 10 11\n", b""):
+        ops.append(({"op": "diskraw", "file": body.hex(), "sysblock": [b"sda".hex(), b"sdb".hex()], "perdisk": False,
+                     "_default": True}, {"fam": "default"}))
+    # os.statvfs raising: every errno of the list propagates as OSError with that errno
+    for e in (errno.ENOENT, errno.EACCES, errno.EIO, errno.ENOTDIR, errno.ELOOP, errno.ENAMETOOLONG, errno.ENOSYS):
+        ops.append(({"op": "usage", "st": [4096, 512, 100, 50, 40, 10, 6, 5, 0, 255], "errno": e}, {"fam": "oserror"}))
     ops += int_ops()
     return ops
 
@@ -1615,6 +1779,9 @@ def correspond(ctx, res):
                 o, m = gen_usage_case(ctx.rng)
             if o["op"] in ("net", "disk", "netraw", "diskraw", "sysfs", "sysfsraw") and ctx.rng.random() < 0.1:
                 o["_nowrap"] = True      # first call after cache_clear(): nowrap=True must return the same
+            if o["op"] in ("net", "disk", "netraw", "diskraw", "sysfs", "sysfsraw") and not o.get("pernic", o.get("perdisk")) \
+                    and ctx.rng.random() < 0.5:
+                o["_default"] = True     # the system-wide form asked for by leaving pernic / perdisk out
             ops.append((o, m, "random"))
         results, nlines = run_ops(ctx, impl, [o for o, _, _ in ops])
         res.extra["driver_lines"] = nlines
@@ -1647,6 +1814,8 @@ def correspond(ctx, res):
                 res.count("impl:" + im["kind"] + (":" + im["exc"] if im.get("kind") == "exc" else ""))
             if "n" in m:
                 res.count("size:%s" % ("0" if m["n"] == 0 else "1" if m["n"] == 1 else "2-8" if m["n"] <= 8 else "9-40"))
+            if o["op"] == "usage" and o["st"][0] == o["st"][1]:
+                res.count("usage:f_bsize == f_frsize (must stay 0)")
             nontrivial = (o["op"] == "usage" and o["st"][2] > 0) or \
                          (o["op"] in ("net", "disk", "sysfs") and m.get("n", 0) > 0) or \
                          (o["op"] in ("netraw", "diskraw") and len(o["file"]) > 0) or o["op"] == "sysfsraw"
@@ -1673,10 +1842,11 @@ def correspond(ctx, res):
                 res.disagree("model", o, im, mo, sp, note="implementation differs from the Lean model", finding=fid)
         res.exhaustive = ("%d cases: every field count 0..25 of a /proc/diskstats line (alone / after a valid line, "
                           "perdisk both ways), every counter count 0..20 of a /proc/net/dev line, every header-line "
-                          "count 0..3, every field count 0..20 of a /sys/block/<dev>/stat file (perdisk both ways), int() on every "
+                          "count 0..3, every index 0..7 of the colon in a /proc/net/dev line (pernic both ways), every field count 0..20 of a /sys/block/<dev>/stat file (perdisk both ways), int() on every "
                           "token of length <= 4 over the alphabet '+-_019x', blank, 0x1f (7381 tokens, one case); the "
                           "table/usage cases are samples") % n_exh
         res.extra["access_redirects"] = impl.access_log
+        res.extra["listings re-ordered (os.listdir of /sys/block)"] = impl.order_log
         res.extra["sysfs_redirects (exists/listdir/walk of /sys/block)"] = impl.sysfs_log
         res.extra["live_renderer_check"] = live_check(ctx, impl, res)
     finally:
